@@ -161,6 +161,13 @@ class Env:
         if self.sym and isinstance(x, SymReal) and x.d is None:
             self.path.nonneg_hints.append(x.n)
 
+    def assume_eq(self, a, b):
+        """equality assumption (in 'conc' mode compared with a tolerance: replayed models may be rounded)"""
+        if self.sym:
+            self.path.assume(a == b)
+        elif not _close(a, b, 1e-6, 1e-9):
+            raise Abort()
+
     def cases(self, name, n):
         """an enumerated choice 0..n-1 decided by the explorer (a fork, not a bound)"""
         return int(self.int(name, 0, n - 1))
@@ -393,3 +400,99 @@ def _close(a, b, rtol=1e-7, atol=1e-9):
     if math.isinf(a) or math.isinf(b):
         return a == b
     return abs(a - b) <= atol + rtol * max(abs(a), abs(b))
+
+
+# ------------------------------------------------------------------------------------------
+# environment stubs usable in both modes
+
+
+class RngStub:
+    """np.random replacement: every draw is an input of the obligation (symbolic in 'sym' mode, taken from
+    the assignment in 'conc' mode), constrained only by the documented range.  Records draws and seeds."""
+
+    def __init__(self, E, prefix="rng"):
+        self.E = E
+        self.prefix = prefix
+        self.n = 0
+        self.draws = []
+        self.seeds = []
+
+    def _one(self, lo, hi):
+        name = f"{self.prefix}{self.n}"
+        self.n += 1
+        mid = None
+        x = self.E.real(name, lo=lo, hi=hi, default=_default_in(self.E.seed, name, lo, hi))
+        self.draws.append(x)
+        return x
+
+    def _arr(self, size, lo, hi):
+        if size is None:
+            return self._one(lo, hi)
+        if isinstance(size, (int, np.integer)):
+            size = (int(size),)
+        size = tuple(int(s) for s in size)
+        n = int(np.prod(size)) if size else 1
+        vals = [self._one(lo, hi) for _ in range(n)]
+        if self.E.sym:
+            a = np.empty(n, dtype=object)
+            for i, v in enumerate(vals):
+                a[i] = v
+            return npenv.wrap(a.reshape(size))  # C order like numpy's generators
+        return np.array(vals, dtype=float).reshape(size)
+
+    def uniform(self, low=0.0, high=1.0, size=None):
+        return self._arr(size, low, high)
+
+    def random_sample(self, size=None):
+        return self._arr(size, 0.0, 1.0)
+
+    random = random_sample
+
+    def rand(self, *shape):
+        return self._arr(shape if shape else None, 0.0, 1.0)
+
+    def randn(self, *shape):
+        return self._arr(shape if shape else None, None, None)
+
+    def normal(self, loc=0.0, scale=1.0, size=None):
+        return self._arr(size, None, None)
+
+    def seed(self, s=None):
+        self.seeds.append(s)
+
+    def __getattr__(self, k):
+        raise Unmodelled(f"np.random.{k} is not modelled by the RNG stub")
+
+
+def _default_in(seed, name, lo, hi):
+    d = _default(seed, name, "R")
+    if lo is None or hi is None:
+        return d
+    frac = (abs(d) % 1) if abs(d) % 1 != 0 else Fraction(1, 3)
+    return Fraction(lo) + frac * (Fraction(hi) - Fraction(lo))
+
+
+import contextlib  # noqa: E402
+
+
+@contextlib.contextmanager
+def rng(E, prefix="rng"):
+    """install an RngStub as np.random for the pyttb modules (sym) / for numpy itself (conc)"""
+    stub = RngStub(E, prefix)
+    if E.sym:
+        old = npenv.fac.random
+        npenv.fac.random = stub
+        try:
+            yield stub
+        finally:
+            npenv.fac.random = old
+    else:
+        names = ["uniform", "random_sample", "random", "rand", "randn", "normal", "seed"]
+        saved = {k: getattr(np.random, k) for k in names}
+        for k in names:
+            setattr(np.random, k, getattr(stub, k))
+        try:
+            yield stub
+        finally:
+            for k, v in saved.items():
+                setattr(np.random, k, v)
